@@ -1137,6 +1137,106 @@ Proof.
   apply (wt_safe_language _ _ _ _ _ _ _ Hs H Hc1 Hw1).
 Qed.
 
+
+(* ---------------------------------------------------------------- reflexivity of the decidable equalities on builders *)
+Lemma opt_eqb_refl {A} (e : A -> A -> bool) o : (forall x, e x x = true) -> opt_eqb e o o = true.
+Proof. intros H. destruct o; simpl; auto. Qed.
+
+Lemma argument_eqb_refl' a : argument_eqb a a = true.
+Proof. unfold argument_eqb. rewrite seqb_refl', ty_eqb_refl. reflexivity. Qed.
+
+Lemma pathindex_eqb_refl ix : pathindex_eqb ix ix = true.
+Proof. unfold pathindex_eqb. rewrite (opt_eqb_refl argument_eqb _ argument_eqb_refl'), dyn_eqb_refl. reflexivity. Qed.
+Lemma pathitem_eqb_refl it : pathitem_eqb it it = true.
+Proof.
+  unfold pathitem_eqb. rewrite seqb_refl', ty_eqb_refl, Bool.eqb_reflx, (opt_eqb_refl ty_eqb _ ty_eqb_refl),
+    (opt_eqb_refl pathindex_eqb _ pathindex_eqb_refl). reflexivity.
+Qed.
+Lemma path_eqb_refl p : path_eqb p p = true.
+Proof. apply leqb_refl_all. apply pathitem_eqb_refl. Qed.
+
+Definition env_vals (env : option (ty * list (path * avalue))) : list (path * avalue) :=
+  match env with Some (_, vals) => vals | None => [] end.
+Section AValueInd.
+  Variable P : avalue -> Prop.
+  Hypothesis HV : forall arg c env, Forall (fun pv => P (snd pv)) (env_vals env) -> P (AValue arg c env).
+  Fixpoint avalue_ind' (v : avalue) : P v :=
+    match v with
+    | AValue arg c env =>
+        HV arg c env
+           (match env as e return Forall (fun pv => P (snd pv)) (env_vals e) with
+            | Some (t, vals) =>
+                (fix go (l : list (path * avalue)) : Forall (fun pv => P (snd pv)) l :=
+                   match l with [] => Forall_nil _ | (p, x) :: r => Forall_cons (p, x) (avalue_ind' x) (go r) end) vals
+            | None => Forall_nil _
+            end)
+    end.
+End AValueInd.
+
+Lemma avalue_eqb_refl : forall v, avalue_eqb v v = true.
+Proof.
+  induction v as [arg c env IH] using avalue_ind'. simpl.
+  rewrite (opt_eqb_refl argument_eqb _ argument_eqb_refl'), dyn_eqb_refl. simpl.
+  destruct env as [[t vals]|]; [|reflexivity]. rewrite ty_eqb_refl. simpl. simpl in IH.
+  apply leqb_refl. rewrite Forall_forall in *. intros [p x] Hin. simpl. rewrite path_eqb_refl. apply (IH (p, x) Hin).
+Qed.
+
+Lemma assignment_eqb_refl a : assignment_eqb a a = true.
+Proof.
+  unfold assignment_eqb. rewrite path_eqb_refl, avalue_eqb_refl, seqb_refl'. simpl.
+  rewrite (leqb_refl_all aconstraint_eqb).
+  - simpl. apply leqb_refl_all. intros n. unfold nilcheck_eqb. rewrite path_eqb_refl, ty_eqb_refl. reflexivity.
+  - intros c. unfold aconstraint_eqb. rewrite argument_eqb_refl', seqb_refl', dyn_eqb_refl. reflexivity.
+Qed.
+
+Lemma boption_eqb_refl o : boption_eqb o o = true.
+Proof.
+  unfold boption_eqb. rewrite seqb_refl', (leqb_refl_all seqb _ seqb_refl'), (leqb_refl_all argument_eqb _ argument_eqb_refl'),
+    (leqb_refl_all assignment_eqb _ assignment_eqb_refl). simpl.
+  apply opt_eqb_refl. intros l. apply leqb_refl_all. apply dyn_eqb_refl.
+Qed.
+
+Lemma constructor_eqb_refl c : constructor_eqb c c = true.
+Proof.
+  unfold constructor_eqb. rewrite (leqb_refl_all argument_eqb _ argument_eqb_refl'), (leqb_refl_all assignment_eqb _ assignment_eqb_refl). reflexivity.
+Qed.
+
+Lemma field_eqb_refl f : field_eqb f f = true.
+Proof. unfold field_eqb. rewrite seqb_refl', (leqb_refl_all seqb _ seqb_refl'), ty_eqb_refl, Bool.eqb_reflx. reflexivity. Qed.
+
+Definition factory_params (f : option (string * string * string * list ocparam)) : list ocparam :=
+  match f with Some (_, _, _, ps) => ps | None => [] end.
+Section OCParamInd.
+  Variable P : ocparam -> Prop.
+  Hypothesis HP : forall arg c f, Forall P (factory_params f) -> P (OCParam arg c f).
+  Fixpoint ocparam_ind' (x : ocparam) : P x :=
+    match x with
+    | OCParam arg c f =>
+        HP arg c f
+           (match f as e return Forall P (factory_params e) with
+            | Some (p1, b1, f1, ps) =>
+                (fix go (l : list ocparam) : Forall P l :=
+                   match l with [] => Forall_nil _ | y :: r => Forall_cons y (ocparam_ind' y) (go r) end) ps
+            | None => Forall_nil _
+            end)
+    end.
+End OCParamInd.
+
+Lemma ocparam_eqb_refl : forall x, ocparam_eqb x x = true.
+Proof.
+  induction x as [arg c f IH] using ocparam_ind'. simpl.
+  rewrite (opt_eqb_refl argument_eqb _ argument_eqb_refl').
+  rewrite (opt_eqb_refl (fun p q : ty * dyn => ty_eqb (fst p) (fst q) && dyn_eqb (snd p) (snd q))).
+  2:{ intros [t d]. simpl. rewrite ty_eqb_refl, dyn_eqb_refl. reflexivity. }
+  simpl. destruct f as [[[[p1 b1] f1] ps]|]; [|reflexivity]. rewrite !seqb_refl'. simpl. apply leqb_refl. exact IH.
+Qed.
+
+Lemma factory_eqb_refl f : factory_eqb f f = true.
+Proof.
+  unfold factory_eqb. rewrite seqb_refl', (leqb_refl_all seqb _ seqb_refl'), (leqb_refl_all argument_eqb _ argument_eqb_refl'). simpl.
+  apply leqb_refl_all. intros c. unfold optioncall_eqb. rewrite seqb_refl'. simpl. apply leqb_refl_all. apply ocparam_eqb_refl.
+Qed.
+
 (* ---------------------------------------------------------------- the statements at the level of rule files *)
 Theorem unselected_unchanged_partial_proof ss files lang bs lrs lbs' b kept :
   rewriter_from files = Ok lrs ->
@@ -1241,4 +1341,142 @@ Proof.
   destruct (apply_to w_schemas w_files_shared "go" w_before) as [bs'| | |] eqn:E; try discriminate.
   apply andb_true_iff in Hw. destruct Hw as [Hw Hn]. apply andb_true_iff in Hw. destruct Hw as [Hc Hwt].
   rewrite (H w_schemas w_files_shared "go" w_before lrs bs' El Hc Hwt E) in Hn. discriminate.
+Qed.
+
+(* ---------------------------------------------------------------- the frame checker the correspondence evaluates
+   is implied by the frame theorem: without interference, frame_ok holds of the model's result *)
+Lemma sel_builder_hdr ss s a b : lb_for a = lb_for b -> lb_name a = lb_name b -> sel_builder ss s a = sel_builder ss s b.
+Proof. intros Hf Hn. destruct s; simpl; rewrite ?Hf, ?Hn; reflexivity. Qed.
+Lemma sel_option_hdr s a b o o' :
+  lb_for a = lb_for b -> lb_pkg a = lb_pkg b -> lb_name a = lb_name b -> lo_name o = lo_name o' -> sel_option s a o = sel_option s b o'.
+Proof. intros Hf Hp Hn Ho. destruct s; simpl; rewrite ?Hf, ?Hn, ?Hp, ?Ho; reflexivity. Qed.
+
+Lemma lsame_erase_same x y : lsame_but_options x y -> same_but_options (erase_builder x) (erase_builder y) = true.
+Proof.
+  intros (Hf & Hp & Hn & Hps & Hc & Hfa). unfold same_but_options, erase_builder. simpl.
+  rewrite Hf, Hp, Hn, Hps, Hc, Hfa.
+  rewrite object_eqb_refl, !seqb_refl', (leqb_refl_all field_eqb _ field_eqb_refl), constructor_eqb_refl,
+    (leqb_refl_all factory_eqb _ factory_eqb_refl). reflexivity.
+Qed.
+
+Lemma in_mapi_from_of {A B} (f : nat -> A -> B) x l : In x l -> forall n, exists i, In (f i x) (mapi_from f n l).
+Proof.
+  induction l as [|y r IH]; intros Hin n; [contradiction|].
+  destruct Hin as [->|Hin]; [exists n; left; reflexivity|]. destruct (IH Hin (S n)) as (k & Hk). exists k. right. exact Hk.
+Qed.
+
+Lemma map_filter_comp {A B} (f : A -> B) (p : B -> bool) l : map f (filter (fun x => p (f x)) l) = filter p (map f l).
+Proof. induction l as [|x r IH]; simpl; [reflexivity|]. destruct (p (f x)); simpl; rewrite IH; reflexivity. Qed.
+
+Theorem frame_checker_sound ss files lang bs lrs lbs' :
+  rewriter_from files = Ok lrs -> apply_to_l true ss files lang bs = Ok (lbs', false) ->
+  frame_ok ss lrs lang bs (erase_builders lbs') = true.
+Proof.
+  intros Hl H. unfold frame_ok, rules_in_order.
+  set (brs := builder_rules_for all_languages lrs ++ builder_rules_for lang lrs).
+  set (ors := option_rules_for all_languages lrs ++ option_rules_for lang lrs).
+  apply forallb_forall. intros b Hb.
+  destruct (builder_never_selected ss brs b) eqn:Ens; [|reflexivity].
+  destruct (filter (option_never_selected ors b) (b_options b)) as [|o0 kk] eqn:Ek; [reflexivity|].
+  destruct (in_mapi_from_of (fun i x => label_builder [0; i] x) b bs Hb 0) as (i & Hi).
+  set (lb := label_builder [0; i] b) in *.
+  assert (Eb : erase_builder lb = b) by apply erase_label_builder.
+  set (lkept := filter (fun lo => option_never_selected ors b (erase_option lo)) (lb_options lb)).
+  assert (Ekept : map erase_option lkept = o0 :: kk).
+  { unfold lkept. rewrite (map_filter_comp erase_option (option_never_selected ors b)).
+    assert (Eo : map erase_option (lb_options lb) = b_options b).
+    { transitivity (b_options (erase_builder lb)); [reflexivity|rewrite Eb; reflexivity]. }
+    rewrite Eo. exact Ek. }
+  destruct (unselected_unchanged_partial_proof ss files lang bs lrs lbs' lb lkept Hl H Hi) as (b' & Hb' & Hsame & Hk).
+  - intros r Hr. unfold builder_never_selected in Ens. rewrite forallb_forall in Ens. specialize (Ens r Hr).
+    rewrite (sel_builder_hdr ss _ lb (header_of b)); [destruct (sel_builder _ _ _); [discriminate|reflexivity]| |]; reflexivity.
+  - intros o Ho. unfold lkept in Ho. apply filter_In in Ho. apply Ho.
+  - intros r o Hr Ho. unfold lkept in Ho. apply filter_In in Ho. destruct Ho as [_ Ho].
+    unfold option_never_selected in Ho. rewrite forallb_forall in Ho. specialize (Ho r Hr).
+    rewrite (sel_option_hdr _ lb (header_of b) o (label_option [] (erase_option o))); try reflexivity.
+    destruct (sel_option _ _ _); [discriminate|reflexivity].
+  - intros E. rewrite E in Ekept. discriminate.
+  - apply existsb_exists. exists (erase_builder b'). split; [unfold erase_builders; apply in_map; exact Hb'|].
+    apply andb_true_iff. split; [rewrite <- Eb; apply lsame_erase_same; exact Hsame|].
+    apply forallb_forall. intros o Ho. rewrite <- Ekept in Ho. apply in_map_iff in Ho. destruct Ho as (lo & <- & Hlo).
+    apply existsb_exists. exists (erase_option lo). split; [|apply boption_eqb_refl].
+    unfold erase_builder. simpl. apply in_map. apply Hk. exact Hlo.
+Qed.
+
+Theorem unselected_unchanged_checker_proof ss files lang bs lrs bs' :
+  rewriter_from files = Ok lrs -> apply_to ss files lang bs = Ok bs' -> interference ss files lang bs = false ->
+  frame_ok ss lrs lang bs bs' = true.
+Proof.
+  intros Hl H Hi. unfold apply_to in H. unfold interference in Hi.
+  destruct (apply_to_l true ss files lang bs) as [[lbs' fl]| | |] eqn:E; simpl in H; try discriminate.
+  inversion H; subst. simpl in Hi. subst fl. apply (frame_checker_sound _ _ _ _ _ _ Hl E).
+Qed.
+
+(* ---------------------------------------------------------------- array_to_append / map_to_index on options of the
+   shape FromAST derives keep them well-typed (what breaks WT is sharing, or an earlier rule that left another shape) *)
+Lemma lopt_wt_is_lopt_ok ss root o : lopt_wt ss root o = lopt_ok ss root o.
+Proof. reflexivity. Qed.
+
+Lemma arg_declared_head a r : arg_declared (a :: r) a = true.
+Proof. unfold arg_declared. simpl. unfold ty_eqb_nn. rewrite seqb_refl', ty_eqb_refl. reflexivity. Qed.
+
+Lemma path_args_app p q : path_args (p ++ q) = path_args p ++ path_args q.
+Proof. unfold path_args. apply flat_map_app. Qed.
+
+Lemma last_item_cons it it2 r : last_item (it :: it2 :: r) = last_item (it2 :: r).
+Proof. reflexivity. Qed.
+
+Lemma path_ok_go_snoc ss x : forall p cur it,
+  path_ok_go ss cur p = true -> last_item p = Some it ->
+  path_ok_go ss (match pi_typehint it with Some h => h | None => pi_type it end) [x] = true ->
+  path_ok_go ss cur (p ++ [x]) = true.
+Proof.
+  induction p as [|it0 r IH]; intros cur it Hok Hl Hx; [discriminate|].
+  simpl in Hok. simpl.
+  destruct (negb (pi_root it0)); [|discriminate]. simpl in *.
+  destruct (match pi_typehint it0 with None => true | Some _ => is_any (pi_type it0) end); [|discriminate]. simpl in *.
+  assert (Hrest : forall nxt, path_ok_go ss nxt r = true -> nxt = match pi_typehint it0 with Some h => h | None => pi_type it0 end ->
+                              path_ok_go ss nxt (r ++ [x]) = true).
+  { intros nxt Hr ->. destruct r as [|it2 r2].
+    - simpl in Hl. inversion Hl; subst. exact Hx.
+    - apply (IH _ it Hr); [rewrite <- Hl; reflexivity|exact Hx]. }
+  destruct (pi_index it0).
+  - destruct (resolve_total ss cur); try discriminate;
+      (apply andb_true_iff in Hok; destruct Hok as [H1 H2]; rewrite H1; simpl; apply Hrest; [exact H2|reflexivity]).
+  - destruct (resolve_total ss cur); try discriminate. destruct (field_by_name fs (pi_id it0)); [|discriminate].
+    apply andb_true_iff in Hok. destruct Hok as [H1 H2]. rewrite H1. simpl. apply Hrest; [exact H2|reflexivity].
+Qed.
+
+Lemma array_to_append_derived_wt ss root base o a first os effs :
+  derived_shape o a first -> lopt_wt ss root o = true -> array_to_append_action base o = Ok (os, effs) ->
+  forallb (lopt_wt ss root) os = true.
+Proof.
+  intros (Ha & Has & (l & Hl) & He & Hc & Hpa & _) Hw H. unfold array_to_append_action in H. rewrite Ha, Has in H.
+  unfold lopt_wt in Hw. rewrite Has in Hw. simpl in Hw. rewrite andb_true_r in Hw.
+  destruct (a_type a) eqn:Et; try (inversion H; subst; simpl; unfold lopt_wt; rewrite Has; simpl; rewrite Hw; reflexivity).
+  inversion H; subst; clear H. rewrite Hl. unfold lopt_wt. cbn [forallb lo_assignments lo_args]. rewrite !andb_true_r.
+  unfold assignment_ok, erase_asg, assignment_args in *. cbn [as_path as_value as_constraints set_la_method set_la_arg la_path la_arg la_const la_env la_method la_constraints la_nilchecks option_map snd] in *.
+  rewrite He, Hc, Hpa in *. cbn [avalue_paths_ok avalue_args map app forallb] in *.
+  apply andb_true_iff in Hw. destruct Hw as [Hw _]. rewrite Hw. rewrite arg_declared_head. reflexivity.
+Qed.
+
+Lemma map_to_index_derived_wt ss root base o a first os effs :
+  derived_shape o a first -> lopt_wt ss root o = true -> map_to_index_action base o = Ok (os, effs) ->
+  forallb (lopt_wt ss root) os = true.
+Proof.
+  intros (Ha & Has & (l & Hl) & He & Hc & Hpa & (it & Hlast & Hty & Hhint)) Hw H. unfold map_to_index_action in H. rewrite Ha, Has in H.
+  unfold lopt_wt in Hw. rewrite Has in Hw. simpl in Hw. rewrite andb_true_r in Hw.
+  destruct (a_type a) as [ | | |ma mi mv| | | | | | | ] eqn:Et; try (inversion H; subst; simpl; unfold lopt_wt; rewrite Has; simpl; rewrite Hw; reflexivity).
+  inversion H; subst; clear H. rewrite Hl. unfold lopt_wt. cbn [forallb lo_assignments lo_args]. rewrite !andb_true_r.
+  unfold assignment_ok, erase_asg, assignment_args in *. cbn [as_path as_value as_constraints set_la_method set_la_arg set_la_path la_path la_arg la_const la_env la_method la_constraints la_nilchecks option_map snd] in *.
+  rewrite He, Hc in *. cbn [avalue_paths_ok avalue_args map app forallb] in *.
+  apply andb_true_iff in Hw. destruct Hw as [Hw _]. apply andb_true_iff in Hw. destruct Hw as [Hw _].
+  assert (Hp : path_ok ss root (la_path first ++ [mkPathItem "" (Some (mkPathIndex (Some (mkArg "key" mi)) DNil)) mv None false]) = true).
+  { unfold path_ok in *. destruct (la_path first) as [|i0 r0] eqn:Ep; [discriminate|].
+    change (path_ok_go ss root ((i0 :: r0) ++ [mkPathItem "" (Some (mkPathIndex (Some (mkArg "key" mi)) DNil)) mv None false]) = true).
+    apply (path_ok_go_snoc ss _ (i0 :: r0) root it Hw Hlast). rewrite Hhint, Hty.
+    cbn [path_ok_go pi_root pi_typehint pi_index pi_type negb andb].
+    rewrite resolve_total_nonref by reflexivity. rewrite ty_eqb_nd_refl. reflexivity. }
+  rewrite Hp. rewrite path_args_app, Hpa. cbn [path_args flat_map pi_index px_arg app andb forallb].
+  unfold arg_declared. cbn [existsb a_name a_type]. unfold ty_eqb_nn. rewrite !seqb_refl', !ty_eqb_refl. cbn [andb orb]. rewrite orb_true_r. reflexivity.
 Qed.
